@@ -380,7 +380,9 @@ func LocksetEnd()             {}
 // run concurrently (the replay binary is built with -race when the harness file carries a
 // `//vf:race` line) so that the race detector confirms the finding.
 func RacePair(label string, a, b func()) {
-	for i := 0; i < 50; i++ {
+	// many rounds: the race detector keeps only a few recent accesses per memory word and
+	// evicts at random, so a single round can miss an unordered pair
+	for i := 0; i < 400; i++ {
 		var wg sync.WaitGroup
 		start := make(chan struct{})
 		wg.Add(2)
